@@ -75,6 +75,12 @@ def make_poll(world, real_poll):
                     if sim.wait_readable(0.0 if (waited or ev) else tmo):
                         ev |= _select.POLLIN
                     waited = True
+                if sim.peer_closed():
+                    # the kernel reports a half-closed peer as soon as its FIN arrived, also while data is still unread
+                    if mask & getattr(_select, "POLLRDHUP", 0x2000):
+                        ev |= getattr(_select, "POLLRDHUP", 0x2000)
+                    if getattr(sim, "_rst", False):
+                        ev |= _select.POLLHUP | _select.POLLERR
                 if ev:
                     out.append((fd, ev))
             return out
